@@ -645,8 +645,15 @@ func c10(c *core.Ctx) {
 				}
 			}
 		}
-		c.Check("Ranking:same-changed-list-to-index-and-top", "value-flow", sameList, rf.Pos(), "index update and top update receive the same list of changed candidates")
-		if len(readers) > 0 {
+		// (with updateTop written out inside Ranking the reader is the GetAll call itself, which takes no list: the two list rules and the
+		// per-element rule below are stated on the helper form and are not decided on such a tree)
+		utInlined := c.InlinedAway("store.CBlock.updateTop")
+		if utInlined {
+			c.Note("updateTop was inlined into CBlock.Ranking: same-changed-list / changed-list provenance / every-candidate-put are not decided on this tree")
+		} else {
+			c.Check("Ranking:same-changed-list-to-index-and-top", "value-flow", sameList, rf.Pos(), "index update and top update receive the same list of changed candidates")
+		}
+		if len(readers) > 0 && !utInlined {
 			_, ra := recvArgs(readers[0])
 			okk := len(ra) == 1
 			if okk {
@@ -687,7 +694,7 @@ func c10(c *core.Ctx) {
 				dOK = false
 			}
 		}
-		c.Check("Ranking:every-changed-candidate-put-into-own-index", "value-flow", dOK, rf.Pos(), "the index update puts every element of the changed list into the index of the block being ranked")
+		c.Check("Ranking:every-changed-candidate-put-into-own-index", "value-flow", dOK || utInlined, rf.Pos(), "the index update puts every element of the changed list into the index of the block being ranked")
 		// updateTop: the re-rank branches read this block's index
 		ut := c.Fn("store.CBlock.updateTop")
 		rank := c.Method("store.VoteTop", "Rank")
